@@ -153,12 +153,19 @@ theorem park_handle_noext (s : State) (m : Msg) (hp : s.park = none) (hx : msgNo
   | startTask w => exact pcore_none_of_pi_eq (pi_startTask s w) hp
   | getUpdates w => exact pcore_none_of_pi_eq (pi_getUpdates s w) hp
   | finishTask w err => exact park_none_of_tos (tos_finishTask s w err) hp
-  | closeNetErr id pub =>
-    show (clearPubWait (abortRequest s id .network).1 pub).park = none
-    exact park_none_of_tos (tos_abortRequest s id .network) hp
-  | terminate id pub =>
-    show (clearPubWait (terminate s id) pub).park = none
-    exact park_none_of_tos (tos_terminate s id) hp
+  | closeNetErr id inc pub =>
+    have h1 : (abortRequest s id .network).1.park = none := park_none_of_tos (tos_abortRequest s id .network) hp
+    rw [handle_closeNetErr]
+    split
+    · split
+      · exact h1
+      · exact h1
+    · exact hp
+  | terminate id inc pub =>
+    rw [handle_terminate]
+    split
+    · exact park_none_of_tos (tos_terminate s id) hp
+    · exact hp
 
 /-- steps of every process other than the manager never park (or unpark) the manager -/
 theorem park_other_step {s s' : State} {a : Action} (h : step s a = some s') (ha : a ≠ .mgr)
